@@ -1,5 +1,6 @@
 import Exetera.Lemmas.ExportApi
 import Exetera.Lemmas.CsvParse
+import Exetera.Lemmas.CsvParseQuoted
 import Exetera.Lemmas.ExportPandasRows
 /-!
   C18 — CSV / pandas export writes exactly the selected rows and columns.
@@ -80,11 +81,88 @@ theorem terminates (c0 : List Export.Cell) (rest : List (List Export.Cell)) (flt
 example : exportLoop [[['a'], ['b'], ['c'], ['d']]] none 2 3 = .ok [[['a']], [['b']], [['c']], [['d']]] ∧
     exportLoop [[['a'], ['b'], ['c'], ['d']]] none 2 2 = .error .outOfFuel := by decide
 
-/- FULL STATEMENT (not provable: false as found, `Witness.C18.nc18a_bare_cr_splits_record`):
-     theorem std_parser_recovers … (hcrs) (hsel) (hflt) (hne) :
-       ∃ fields text, f.getAll (dropFilterColumn rf sel) = .ok fields ∧ toCsv renderRow f rf cf crs = .ok text ∧
-         parse .std text = dropFilterColumn rf sel :: exportRows (fields.map (·.data)) flt
-   i.e. without the hypothesis `hread`. What is missing: csv.writer (Python < 3.13) does not quote a bare carriage return. -/
+/-- **readers_recover** (with fixes/D30_NC18a: the lines of the file are written by ExeTera's own `_csv_record`, `csvRecord`).
+    For every frame — whatever its cells and names hold: separators, quotes, line feeds, carriage returns, leading blanks —
+    every valid selection, filter and `chunk_row_size ≥ 1`, a reader of ANY of the four dialects applied to the file recovers
+    the header and every cell of every selected row exactly. -/
+theorem readers_recover (d : Dialect) (f : Frame) (rf : RowFilter) (cf : ColFilter) (crs : Int)
+    (sel : List Export.Cell) (flt : Option (List Bool))
+    (hcrs : 0 < crs) (hsel : Selects f cf sel) (hflt : validateRowFilter rf = .ok flt)
+    (hne : dropFilterColumn rf sel ≠ []) :
+    ∃ fields text, f.getAll (dropFilterColumn rf sel) = .ok fields ∧ toCsv csvRecord f rf cf crs = .ok text ∧
+      parse d text = dropFilterColumn rf sel :: exportRows (fields.map (·.data)) flt := by
+  obtain ⟨fields, hget, _, _, hcsv⟩ := to_csv_rows csvRecord f rf cf crs sel flt hcrs hsel hflt hne
+  refine ⟨fields, _, hget, hcsv, ?_⟩
+  have := parse_records d (dropFilterColumn rf sel :: exportRows (fields.map (·.data)) flt)
+  simpa only [List.flatMap_cons] using this
+
+/-- **std_parser_recovers** (full; with fixes/D30_NC18a): "a standard CSV parser recovers each cell's value" — no hypothesis about
+    the contents of the frame. (As found — `csv.writer` of Python < 3.13 — only `std_parser_recovers_partial` below holds:
+    `Witness.C18.nc18a_bare_cr_splits_record`.) -/
+theorem std_parser_recovers (f : Frame) (rf : RowFilter) (cf : ColFilter) (crs : Int)
+    (sel : List Export.Cell) (flt : Option (List Bool))
+    (hcrs : 0 < crs) (hsel : Selects f cf sel) (hflt : validateRowFilter rf = .ok flt)
+    (hne : dropFilterColumn rf sel ≠ []) :
+    ∃ fields text, f.getAll (dropFilterColumn rf sel) = .ok fields ∧ toCsv csvRecord f rf cf crs = .ok text ∧
+      parse .std text = dropFilterColumn rf sel :: exportRows (fields.map (·.data)) flt :=
+  readers_recover .std f rf cf crs sel flt hcrs hsel hflt hne
+
+/-- **reimport_exact** (full; with fixes/D30_NC18a): "re-importing the file … reproduces the string … columns" — ExeTera's own
+    reader dialect recovers every cell exactly, leading blanks included. (As found only `reimport_exact_partial` /
+    `reimport_roundtrip` below hold: `Witness.C18.d30_leading_blank_lost`.) -/
+theorem reimport_exact (f : Frame) (rf : RowFilter) (cf : ColFilter) (crs : Int)
+    (sel : List Export.Cell) (flt : Option (List Bool))
+    (hcrs : 0 < crs) (hsel : Selects f cf sel) (hflt : validateRowFilter rf = .ok flt)
+    (hne : dropFilterColumn rf sel ≠ []) :
+    ∃ fields text, f.getAll (dropFilterColumn rf sel) = .ok fields ∧ toCsv csvRecord f rf cf crs = .ok text ∧
+      parse .exetera text = dropFilterColumn rf sel :: exportRows (fields.map (·.data)) flt :=
+  readers_recover .exetera f rf cf crs sel flt hcrs hsel hflt hne
+
+/-- non-vacuity: leading blanks, a cell of blanks only, bare carriage returns, a lone CR, separators and quotes -/
+example :=
+  readers_recover .exetera [⟨[' ', 's'], [[' ', 'a'], [' ', ' '], ['i', '\r', 'j'], ['\r'], ['x', ',', '"']]⟩,
+      ⟨['n'], [['1'], ['2'], ['3'], ['4'], ['5']]⟩]
+    (.array [true, true, true, true, true]) .none 2 [[' ', 's'], ['n']] (some [true, true, true, true, true]) (by decide)
+    Selects.none rfl (by decide)
+
+example : toCsv csvRecord [⟨['s'], [[' ', 'a'], ['i', '\r', 'j']]⟩, ⟨['n'], [['1'], ['2']]⟩] .none .none 1
+    = .ok ['s', ',', 'n', '\n', '"', ' ', 'a', '"', ',', '1', '\n', '"', 'i', '\r', 'j', '"', ',', '2', '\n'] := by decide
+
+/-- **csv_record_agrees_with_csv_writer**: the fix changes no other byte — on every frame none of whose selected cells or names
+    starts with a blank or holds a carriage return, `to_csv` writes the same file with `_csv_record` as with `csv.writer`. -/
+theorem csv_record_agrees_with_csv_writer (f : Frame) (rf : RowFilter) (cf : ColFilter) (crs : Int)
+    (sel : List Export.Cell) (flt : Option (List Bool))
+    (hcrs : 0 < crs) (hsel : Selects f cf sel) (hflt : validateRowFilter rf = .ok flt)
+    (hne : dropFilterColumn rf sel ≠ [])
+    (hplain : ∀ c ∈ f, (c.name.head? ≠ some ' ' ∧ '\r' ∉ c.name) ∧ ∀ x ∈ c.data, x.head? ≠ some ' ' ∧ '\r' ∉ x) :
+    toCsv csvRecord f rf cf crs = toCsv renderRow f rf cf crs := by
+  obtain ⟨fields, hget, hnames, hmem, hcsv⟩ := to_csv_rows csvRecord f rf cf crs sel flt hcrs hsel hflt hne
+  obtain ⟨fields', hget', _, _, hcsv'⟩ := to_csv_rows renderRow f rf cf crs sel flt hcrs hsel hflt hne
+  have hf : fields' = fields := by rw [hget] at hget'; exact (Except.ok.inj hget').symm
+  subst hf
+  rw [hcsv, hcsv']
+  have hhead : csvRecord (dropFilterColumn rf sel) = renderRow (dropFilterColumn rf sel) := by
+    apply csvRecord_eq_renderRow
+    intro c hc
+    rw [← hnames] at hc
+    obtain ⟨col, hcol, rfl⟩ := List.mem_map.mp hc
+    exact (hplain col (hmem col hcol)).1
+  have hrows : ∀ r ∈ exportRows (fields'.map (·.data)) flt, csvRecord r = renderRow r := by
+    intro r hr
+    apply csvRecord_eq_renderRow
+    intro c hc
+    obtain ⟨col, hcol, hx⟩ := mem_exportRows hr hc
+    obtain ⟨fc, hfc, rfl⟩ := List.mem_map.mp hcol
+    exact (hplain fc (hmem fc hfc)).2 c hx
+  rw [hhead, flatMap_congr_mem _ _ _ hrows]
+
+example :=
+  csv_record_agrees_with_csv_writer [⟨['s'], [['a', ' '], ['p', ',', '"'], ['l', '\n', 'm'], []]⟩, ⟨['n'], [['1'], ['2'], ['3'], ['4']]⟩]
+    (.array [true, false, true, true]) (.many [['n'], ['s']]) 3 [['n'], ['s']] (some [true, false, true, true])
+    (by decide) (Selects.many _ (by decide) (by decide)) rfl (by decide) (by decide)
+
+/- As found (the lines written by `csv.writer`, `renderRow`) the full statement `std_parser_recovers` is false
+   (`Witness.C18.nc18a_bare_cr_splits_record`: csv.writer of Python < 3.13 does not quote a bare carriage return); what holds: -/
 /-- **std_parser_recovers_partial**: with the specified `csv.writer` (`renderRow`), a standard CSV reader applied to the file written
     by `to_csv` recovers the header and every cell of every selected row exactly — provided no cell or name of the frame holds a
     carriage return without also holding a comma, quote or line feed (finding NC18a: such a cell is written unquoted). -/
@@ -158,11 +236,9 @@ theorem asRead_exetera_of_keepsBlanks (c : Export.Cell) (h : KeepsBlanks c) : as
       · simp [List.dropWhile, hx]
       · rfl
 
-/- FULL STATEMENT (not provable: false as found, `Witness.C18.d30_leading_blank_lost`):
-     theorem reimport_exact … (hcrs) (hsel) (hflt) (hne) :
-       ∃ fields text, … ∧ parse .exetera text = dropFilterColumn rf sel :: exportRows (fields.map (·.data)) flt
-   i.e. without the hypothesis `hkeep`. What is missing: the writer leaves a cell with leading blanks unquoted and the reader
-   skips blanks at the start of a field (D30); `reimport_roundtrip` above states exactly what is read instead. -/
+/- As found (`renderRow`) the full statement `reimport_exact` above is false (`Witness.C18.d30_leading_blank_lost`: csv.writer leaves a
+   cell with leading blanks unquoted and the reader skips blanks at the start of a field); `reimport_roundtrip` above states
+   exactly what is read instead, and: -/
 /-- **reimport_exact_partial**: if every cell and name of the frame keeps its blanks (no leading blank, or quoted anyway), re-import
     through ExeTera's reader dialect reproduces the header and every selected row exactly. -/
 theorem reimport_exact_partial (f : Frame) (rf : RowFilter) (cf : ColFilter) (crs : Int)
